@@ -518,7 +518,9 @@ def run(ctx):
         "points of mixed distance), clustered, flat tetrahedra, arbitrary bit patterns (exact routines only); every case is evaluated by the "
         "real exact and adaptive routine and by the Lean model, and on the implementation additionally under all transpositions "
         "(must negate) and all 3-cycles (must keep) of the points; distinct = different op line; non-trivial = the adaptive routine's "
-        "filter was undecided (fallback to exact arithmetic) or the configuration is exactly degenerate")
+        "filter was undecided (fallback to exact arithmetic) or the configuration is exactly degenerate; "
+        "second stream 'rescale' (implementation-level oracle, never non-trivial): simulation boxes (anchor, sides) for which the real "
+        "NewVoronoiGrid constructor is run and every coordinate it would hand to the predicates is checked to lie in [1,2)")
     ctx.cov["tolerance"] = "none: the observable is the returned sign, answers must be identical"
     if not ok:
         return 0
@@ -589,10 +591,13 @@ MANIFEST = dict(
          "insphere_adaptive_exact).  Model tied to ExactGeometricTests.hpp by running the same Lean definitions (Float filter, "
          "fixed-width exact routine) against the real routines on random, exactly degenerate and 1..1000-ulp perturbed "
          "configurations: returned signs identical; property oracle (adaptive = exact, transposition negates, 3-cycle keeps) "
-         "evaluated on the implementation.",
+         "evaluated on the implementation.  The precondition 'coordinates in [1,2)' is checked on the real NewVoronoiGrid / "
+         "NewVoronoiBox rescaling for generated simulation boxes (oracle only; it currently FAILS: the enclosing tetrahedron recomputed "
+         "in rescaled coordinates gets vertices 2.0000000000000004 or 0.9999999999999998, reported as a violation until fixed or recorded).",
     note="Trusted: Lean kernel + 3 standard axioms; hand model of ExactGeometricTests.hpp; IEEE arithmetic abstracted by the "
          "standard model |fl x - x| <= 2^-53 |x| (no underflow possible for coordinates in [1,2)); negation/abs exact; Boost's "
          "unchecked fixed-width integers modelled as magnitude truncation; the branch taken inside the real adaptive routine is "
-         "not observable (only the returned sign is), the branch histogram comes from the bit-identical Lean Float evaluation.",
+         "not observable (only the returned sign is), the branch histogram comes from the bit-identical Lean Float evaluation; the rescaling "
+         "of NewVoronoiGrid / NewVoronoiBox into [1,2) is not modelled in Lean, only checked on the implementation.",
     technique="Lean 4: ring identities, Matrix.det_permute, operation-by-operation magnitude tracking, running "
               "floating-point error analysis over an abstract rounding function + exact differential correspondence")
